@@ -1,6 +1,8 @@
 pub mod dynshape;
 pub mod guard;
+pub mod ioshape;
 pub mod node;
 pub mod report;
 pub use dynshape::*;
+pub use ioshape::*;
 pub use node::*;
